@@ -31,20 +31,34 @@ def run(ctx):
     NOT = '<color::Color as core::ops::bit::Not>::not'
     r = bb(il.inline(s.ret, only=lambda k: k not in (NOT, UPI)))
     none = ('agg', 'core::option::Option', 'None', ())
-    in_check = [(('bbne', ('bb0',), ('field', SELF, 'checkers')), True), (('bbeq', ('bb0',), ('field', SELF, 'checkers')), False)]
-    m = None
-    polarity = None
-    if r[0] == 'ite':
-        c = r[1]
-        for pat, pol in in_check:
-            if c[0] == pat[0] and set(c[1:]) == set(pat[1:]):
-                polarity = pol
-        cases = dict(r[2])
-    if polarity is None or set(cases) != {0, 'otherwise'}:
-        ctx.violation('C18.R1', KEY, 'null_move is not a two-way decision on `checkers != EMPTY`: ' + sh(r, 300), w)
+    # the value for "in check" and for "not in check", however the test is spelled (==, !=, popcnt, negated, early return)
+    CK = ('field', SELF, 'checkers')
+    unknown = []
+
+    def branch(incheck):
+        def decide(c, vals):
+            if c[0] in ('bbeq', 'bbne') and set(c[1:]) == {('bb0',), CK}:
+                return as_bool(incheck == (c[0] == 'bbne'), vals)
+            if c[0] == 'bin' and c[1] in ('Eq', 'Ne') and len(c) == 4:
+                # the derived equality inlined to the words: checkers.0 == 0
+                sides = {sh(c[2], 80), sh(c[3], 80)}
+                if any('checkers' in x for x in sides) and any(x.startswith('bb0') or x.startswith('0:') for x in sides):
+                    return as_bool(incheck == (c[1] == 'Ne'), vals)
+            if c[0] == 'bin' and c[1] in ('Eq', 'Ne', 'Gt', 'Ge', 'Lt', 'Le') and c[2] == ('popcnt', CK) and c[3][0] == 'int':
+                n_ = 1 if incheck else 0
+                k_ = c[3][1]
+                return as_bool({'Eq': n_ == k_, 'Ne': n_ != k_, 'Gt': n_ > k_, 'Ge': n_ >= k_, 'Lt': n_ < k_, 'Le': n_ <= k_}[c[1]], vals)
+            unknown.append(c)
+            return None
+        return [l for l in eval_tree(r, decide) if l != ('never',)]
+    tb, fb = branch(True), branch(False)
+    if unknown or len(tb) != 1 or len(fb) != 1:
+        if unknown:
+            ctx.violation('C18.R1', KEY, 'null_move decides on something other than `checkers != EMPTY`: ' + sh(unknown[0], 200), w)
+        else:
+            ctx.violation('C18.R1', KEY, 'null_move is not a two-way decision on `checkers != EMPTY`: ' + sh(r, 300), w)
         return
-    t_branch = cases['otherwise'] if polarity else cases[0]     # in check
-    f_branch = cases[0] if polarity else cases['otherwise']     # not in check
+    t_branch, f_branch = tb[0], fb[0]
     if t_branch == none and f_branch[0] == 'agg' and f_branch[2] == 'Some':
         ctx.ok('C18.R1', 'null_move returns None iff checkers != EMPTY', w)
     else:
